@@ -5,10 +5,10 @@ func init() {
 		ID:    "C13",
 		Title: "Planning and responses are deterministic",
 		Kernels: []Kernel{
-			{Name: "map-orders", Pkg: ".", Files: []string{"root/fed.go", "root/c01.go", "root/c02.go", "root/c13.go"}, Entry: "VerifDeterminism", Mode: "seq",
+			{Name: "map-orders", Pkg: ".", Files: []string{"root/fed.go", "root/c01.go", "root/c02.go", "root/c13.go"}, Entry: "VerifDeterminism", Mode: "seq", Native: true,
 				Quick: map[string]int{"k": 2, "maporder": 1}, Thorough: map[string]int{"k": 2, "maporder": 2},
 				Reach: []string{"two runs compared"}, Functions: pipelineFns},
-			{Name: "repeat-with-cache", Pkg: ".", Files: []string{"root/fed.go", "root/c01.go", "root/c02.go", "root/c13.go"}, Entry: "VerifRepeatWithCache", Mode: "seq",
+			{Name: "repeat-with-cache", Pkg: ".", Files: []string{"root/fed.go", "root/c01.go", "root/c02.go", "root/c13.go"}, Entry: "VerifRepeatWithCache", Mode: "seq", Native: true,
 				Reach: []string{"repeat compared"}, Functions: pipelineFns},
 		},
 		Assume: []string{
